@@ -34,7 +34,10 @@ def opC02 (j : Json) : R Json := do
       ("values", jstrs (sortStrs (spec.map Item.asString).eraseDups)),
       ("count", Json.num spec.length),
       ("implValues", jstrs (sortStrs (impl.map Item.asString).eraseDups)),
-      ("implCount", Json.num impl.length)]
+      ("implCount", Json.num impl.length),
+      -- the ARRAY of reached values (one entry per route), as `uniqueValues` sees it
+      ("dup", Json.bool (hasDup (pathValues g p false n))),
+      ("routes", Json.num (pathValues g p false n).length)]
 
 /-- c01: which (validation, node) pairs are reported -/
 def opC01 (j : Json) : R Json := do
